@@ -184,7 +184,7 @@ impl Hist {
                 let max_acc = (*rnd::pick(&mut w.r, &[10_000u32, 50_000, 350_000, 1_000_000])).min(u32::MAX / gs as u32);
                 let consts = (
                     *rnd::pick(&mut w.r, &[1u16, 30, 60]),
-                    *rnd::pick(&mut w.r, &[61u16, 600, 3000]),
+                    *rnd::pick(&mut w.r, &[61u16, 600, 3000, 5000, 65535]),
                     *rnd::pick(&mut w.r, &[0u16, 500, 5000, 9999]),
                     *rnd::pick(&mut w.r, &[0u32, 1, 1000, 4000, 99_999]),
                     max_acc,
@@ -719,7 +719,9 @@ impl Hist {
             let ix = w.swap_ix(p, u, u64::MAX / 16, 0, limit, true, a_to_b, true);
             self.step(w, ix, monitors, acc);
         }
-        // ... and the swap that comes after the hour
+        // ... and the swap that comes after the hour: at once, or after a pause on either side of the filter / decay periods
+        let pause = *rnd::pick(&mut w.r, &[0i64, 0, 1, o.constants.filter_period as i64, o.constants.filter_period as i64 + 1, (o.constants.decay_period as i64 - 1).max(1), o.constants.decay_period as i64, 3601]);
+        w.advance_clock(pause);
         self.op_swap(w, p, monitors, acc);
     }
 
@@ -1113,6 +1115,25 @@ impl Hist {
     pub fn op_setters(&mut self, w: &mut World, p: usize, monitors: &mut [Box<dyn Monitor>], acc: &mut Acc) {
         let pool = w.pools[p].clone();
         let cfg = w.configs[pool.config].clone();
+        if pool.adaptive && rnd::chance(&mut w.r, 1, 2) {
+            // replace some of the adaptive fee constants of this pool (mostly valid values)
+            if let Some(o) = w.bank.data(&pool.oracle).and_then(codec::Oracle::decode) {
+                let c = o.constants;
+                let sp = pool.tick_spacing;
+                let gs_opts: Vec<u16> = (1..=sp.min(512)).filter(|g| sp % g == 0).collect();
+                let pick16 = |r: &mut R, v: &[u16]| if r.gen() { Some(*rnd::pick(r, v)) } else { None };
+                let filter = pick16(&mut w.r, &[1, 10, 30, 60, c.filter_period]);
+                let decay = pick16(&mut w.r, &[61, 600, 3000, 7200, c.decay_period]);
+                let reduction = pick16(&mut w.r, &[0, 500, 5000, 9999, 10000]);
+                let control = if w.r.gen() { Some(*rnd::pick(&mut w.r, &[0u32, 1, 1000, 4000, 99_999, 100_000])) } else { None };
+                let gs = if w.r.gen() { Some(*rnd::pick(&mut w.r, &gs_opts)) } else { None };
+                let max_acc = if w.r.gen() { Some((*rnd::pick(&mut w.r, &[10_000u32, 50_000, 350_000, 1_000_000])).min(u32::MAX / gs.unwrap_or(c.tick_group_size).max(1) as u32)) } else { None };
+                let major = pick16(&mut w.r, &[1, sp, 64, 500]);
+                let ix = b::SetAdaptiveFeeConstants { whirlpool: pool.key, whirlpools_config: cfg.key, oracle: pool.oracle, fee_authority: cfg.fee_authority }.ix(filter, decay, reduction, control, max_acc, gs, major);
+                self.step(w, ix, monitors, acc);
+                return;
+            }
+        }
         let ix = if w.r.gen() {
             let fr = *rnd::pick(&mut w.r, &[0u16, 1, 100, 3000, 30000, 60000, 60001, u16::MAX]);
             b::SetFeeRate { whirlpools_config: cfg.key, whirlpool: pool.key, fee_authority: cfg.fee_authority }.ix(fr)
